@@ -69,6 +69,8 @@ def parse(ns: tuple, given: Dict[str, Any]) -> Dict[str, Any]:
     for name, e in ns[5]:
         if name in given:
             if not is_port(e):
+                if not isinstance(given[name], dict):
+                    raise Rejected(f'{name} is a namespace, its value must be a mapping')
                 out[name] = parse(e, given[name])
             continue
         if is_port(e):
